@@ -417,3 +417,200 @@ func (ex *Exec) staticModVars(c *Contract, callee *ssa.Function, sig *types.Sign
 	}
 	return vars
 }
+
+// ---- loop frames: which objects of a state variable does a loop body write? ----
+
+type loopMod struct {
+	whole bool
+	objs  []string
+}
+
+// objTerm returns a term (valid at the loop header, before the havoc) for a loop-invariant SSA value.
+func (ma *ModAnalysis) objTerm(fr *Frame, li *loopInfo, v ssa.Value, modVars map[string]bool) (string, bool) {
+	ex := ma.ex
+	switch x := v.(type) {
+	case *ssa.Const, *ssa.Parameter, *ssa.FreeVar:
+		return fr.val(v).T, true
+	case ssa.Instruction:
+		if b := x.Block(); b != nil && !li.body[b.Index] {
+			if val, ok := fr.vals[v]; ok && val.T != "" {
+				return val.T, true
+			}
+			return "", false
+		}
+		// load of a field of an invariant object, the field not being modified in the loop
+		if u, ok := v.(*ssa.UnOp); ok {
+			if fa, ok := u.X.(*ssa.FieldAddr); ok {
+				base, ok := ma.objTerm(fr, li, fa.X, modVars)
+				if !ok {
+					return "", false
+				}
+				pt := fa.X.Type().Underlying().(*types.Pointer).Elem()
+				si, ok := ex.w.structOf(pt)
+				if !ok {
+					return "", false
+				}
+				f := si.Fields[fa.Field]
+				fv := ex.fieldVar(si.Name, f.Name, f.Sort)
+				if modVars[fv] {
+					return "", false
+				}
+				return "(select " + ex.get(fr.cur, fv) + " " + base + ")", true
+			}
+		}
+	}
+	return "", false
+}
+
+// LoopObjMods refines LoopMods: per modified variable, either the whole variable or a list of object terms.
+func (ma *ModAnalysis) LoopObjMods(fr *Frame, li *loopInfo, vars []string) map[string]*loopMod {
+	ex := ma.ex
+	modVars := map[string]bool{}
+	for _, v := range vars {
+		modVars[v] = true
+	}
+	res := map[string]*loopMod{}
+	get := func(v string) *loopMod {
+		m := res[v]
+		if m == nil {
+			m = &loopMod{}
+			res[v] = m
+		}
+		return m
+	}
+	addObj := func(v string, val ssa.Value) {
+		if t, ok := ma.objTerm(fr, li, val, modVars); ok {
+			m := get(v)
+			if !contains(m.objs, t) {
+				m.objs = append(m.objs, t)
+			}
+		} else {
+			get(v).whole = true
+		}
+	}
+	wholeAll := func(vs []string) {
+		for _, v := range vs {
+			get(v).whole = true
+		}
+	}
+	var baseObj func(addr ssa.Value) (ssa.Value, bool)
+	baseObj = func(addr ssa.Value) (ssa.Value, bool) {
+		switch a := addr.(type) {
+		case *ssa.FieldAddr:
+			switch a.X.(type) {
+			case *ssa.IndexAddr, *ssa.FieldAddr:
+				return baseObj(a.X)
+			}
+			return a.X, true
+		case *ssa.IndexAddr:
+			if _, isPtr := a.X.Type().Underlying().(*types.Pointer); isPtr {
+				return baseObj(a.X)
+			}
+			if u, ok := a.X.(*ssa.UnOp); ok {
+				return baseObj(u.X)
+			}
+		}
+		return nil, false
+	}
+	for _, b := range fr.fn.Blocks {
+		if !li.body[b.Index] {
+			continue
+		}
+		for _, ins := range b.Instrs {
+			switch i := ins.(type) {
+			case *ssa.Store:
+				v, ok := ma.rootVar(i.Addr)
+				if !ok {
+					continue
+				}
+				if obj, ok := baseObj(i.Addr); ok {
+					addObj(v, obj)
+				} else {
+					get(v).whole = true
+				}
+			case *ssa.MapUpdate:
+				ms := ex.w.SortOf(i.Map.Type())
+				addObj(ex.mapDomVar(ms), i.Map)
+				addObj(ex.mapValVar(ms), i.Map)
+			case *ssa.Call, *ssa.Defer:
+				var cc *ssa.CallCommon
+				if c, ok := i.(*ssa.Call); ok {
+					cc = &c.Call
+				} else {
+					cc = &i.(*ssa.Defer).Call
+				}
+				if bi, ok := cc.Value.(*ssa.Builtin); ok {
+					if bi.Name() == "delete" {
+						ms := ex.w.SortOf(cc.Args[0].Type())
+						addObj(ex.mapDomVar(ms), cc.Args[0])
+					}
+					continue
+				}
+				// contract with object-level modifies and invariant arguments?
+				var c *Contract
+				var callee *ssa.Function
+				var names []string
+				if cc.IsInvoke() {
+					key := ex.w.typeName(cc.Value.Type()) + "." + cc.Method.Name()
+					c = ex.cs.Funcs[key]
+					names = paramNames(nil, cc.Signature(), true)
+				} else if f, ok := cc.Value.(*ssa.Function); ok && f.Pkg == ex.pkg {
+					callee = f
+					c = ex.cs.Funcs[ex.fnKey(f)]
+					names = paramNames(f, f.Signature, false)
+				}
+				sub := newModInfo()
+				ma.instr(fr.fn, ins, sub)
+				subVars := append(sortedKeys(sub.vars), sortedKeys(sub.allocVars)...)
+				if c == nil || !c.HasMod {
+					wholeAll(subVars)
+					continue
+				}
+				env := &Env{ex: ex, vars: map[string]*Val{}, cur: fr.cur, old: fr.cur, fr: fr}
+				argVals := cc.Args
+				off := 0
+				if cc.IsInvoke() {
+					if t, ok := ma.objTerm(fr, li, cc.Value, modVars); ok {
+						env.vars["self"] = &Val{T: t, S: SAny}
+					}
+					off = 1
+				}
+				for k, a := range argVals {
+					if k+off < len(names) {
+						if t, ok := ma.objTerm(fr, li, a, modVars); ok {
+							env.vars[names[k+off]] = &Val{T: t, S: ex.w.SortOf(a.Type())}
+						}
+					}
+				}
+				func() {
+					defer func() {
+						if r := recover(); r != nil {
+							if _, ok := r.(specErr); ok {
+								wholeAll(subVars)
+								return
+							}
+							panic(r)
+						}
+					}()
+					for _, mc := range c.Modifies {
+						for _, loc := range ex.resolveModLoc(mc.Expr, env) {
+							if loc.All {
+								get(loc.Var).whole = true
+							} else {
+								m := get(loc.Var)
+								if !contains(m.objs, loc.Obj) {
+									m.objs = append(m.objs, loc.Obj)
+								}
+							}
+						}
+					}
+					_ = callee
+					for _, v := range sortedKeys(sub.allocVars) {
+						get(v).whole = true
+					}
+				}()
+			}
+		}
+	}
+	return res
+}
